@@ -27,6 +27,12 @@ PAYLOADS = {
     "non-identifier-alphanumerics": "m²₂½①",
     "digits-first": "9³x",
 }
+MARK = "ZQXMARK"
+# white space at the very ends of the text (the marker sits inside): text is text, ends included
+PAYLOADS.update({
+    "space-in-front": " " + MARK, "space-behind": MARK + " ", "spaces-at-both-ends": "  " + MARK + "  ", "line-feed-behind": MARK + "\n",
+    "tabs-at-both-ends": "\t" + MARK + "\t", "no-break-space-at-both-ends": "\u00a0" + MARK + "\u00a0",
+})
 # valid XSD integer lexical forms that are not (all) valid Rust literals
 XSD_LEXICAL = {"wide-integer": "4294967296", "wide-negative-integer": "-9999999999", "plus-sign": "+7", "plus-zero-padded": "+007", "zero-padded": "007", "blank-padded": "  7\t", "minus-zero": "-0"}
 TEXT_POSITIONS = ["enumeration", "numeric-facet", "length-facet", "doc-simple", "doc-complex", "target-namespace",
@@ -168,7 +174,7 @@ def payload_matrix():
             out.append((f"xsd-lexical-{cls}", pos, text, ss))
     for cls, payload in PAYLOADS.items():
         for pos in TEXT_POSITIONS:
-            marked = f"{MARK}{payload}{MARK}"
+            marked = payload if MARK in payload else f"{MARK}{payload}{MARK}"
             if pos.endswith("-leading"):
                 text = "http://zv.test/c14/" + payload + MARK
                 ss = base_program(texts={pos[:-len("-leading")]: text})
